@@ -3,7 +3,8 @@
 (* C17: payloads that drive the reference encoder of RangeCoder.tla, from   *)
 (* the reset state, into its rare states - DERIVED, not chosen: this is the *)
 (* answer of the reachability query RangeCoderReach (every payload of       *)
-(* length <= 2, directed search up to length 4), reduced by the selection   *)
+(* length <= 2, directed search up to length 4, every payload of length     *)
+(* <= 6 over a six-byte alphabet), reduced by the selection                 *)
 (* rule in checks/C17.py (select_rare).  The thorough tier re-derives the   *)
 (* list and refuses to run with a stale one; the quick tier re-confirms     *)
 (* every entry against the encoder (RangeCoderReach!ConfirmSpec) and then   *)
@@ -20,7 +21,10 @@
 (*   two pending 0xFF                    length 4                           *)
 (*   range = 2^24 exactly after a decision   254 of the 256 payloads of     *)
 (*        length 1 (not rare at all)                                        *)
-(*   range = 2^24 - 1, cache byte 0xFF   not with <= 4 bytes (directed)     *)
+(*   0xFF pending when the last byte of the flush is written                *)
+(*        length 3 (e.g. 03 00 03; found by the deep search over the        *)
+(*        alphabet {00, 01, 02, 03, 80, FF}, every payload up to length 6)  *)
+(*   range = 2^24 - 1, cache byte 0xFF   not found by either search         *)
 (***************************************************************************)
 EXTENDS Integers, Sequences
 
@@ -122,7 +126,6 @@ RarePayloads == <<
     <<"carry_pend_flush", <<10, 1>>>>,
     <<"carry_pend_flush", <<12, 1>>>>,
     <<"carry_pend_flush", <<14, 1>>>>,
-    <<"carry_pend_flush", <<16, 1>>>>,
     <<"carry_pend_flush", <<252, 1>>>>,
     <<"carry_pend_flush", <<254, 1>>>>,
     <<"carry_pend_flush", <<2, 68, 2, 1>>>>,
@@ -131,16 +134,15 @@ RarePayloads == <<
     <<"carry_pend_flush", <<2, 68, 2, 4>>>>,
     <<"carry_pend_flush", <<2, 68, 2, 5>>>>,
     <<"carry_pend_flush", <<2, 68, 2, 6>>>>,
-    <<"carry_pend", <<2, 68, 2, 16>>>>,
-    <<"carry_pend", <<2, 68, 2, 32>>>>,
-    <<"carry_pend", <<2, 68, 2, 48>>>>,
-    <<"carry_pend", <<2, 68, 2, 64>>>>,
-    <<"carry_pend", <<2, 68, 2, 80>>>>,
-    <<"carry_pend", <<2, 68, 2, 96>>>>,
+    <<"carry_pend", <<2, 0, 128>>>>,
+    <<"carry_pend", <<2, 1, 0>>>>,
+    <<"carry_pend", <<2, 1, 128>>>>,
+    <<"carry_pend", <<128, 0, 128>>>>,
+    <<"carry_pend", <<128, 1, 0>>>>,
+    <<"carry_pend", <<128, 1, 128>>>>,
     <<"pend_flush", <<2>>>>,
     <<"pend_flush", <<4>>>>,
     <<"pend_flush", <<6>>>>,
-    <<"pend_flush", <<8>>>>,
     <<"pend_flush", <<0, 20>>>>,
     <<"pend_flush", <<0, 90>>>>,
     <<"pend_flush", <<0, 124>>>>,
@@ -148,7 +150,6 @@ RarePayloads == <<
     <<"pend_flush", <<1, 20>>>>,
     <<"pend_flush", <<1, 90>>>>,
     <<"pend_flush", <<1, 92>>>>,
-    <<"pend_flush", <<1, 96>>>>,
     <<"pend", <<2, 68, 2, 0>>>>,
     <<"pend", <<2, 68, 2, 1>>>>,
     <<"pend", <<2, 68, 2, 2>>>>,
@@ -157,8 +158,12 @@ RarePayloads == <<
     <<"pend", <<2, 68, 2, 5>>>>,
     <<"eq24", <<2>>>>,
     <<"eq24", <<3>>>>,
-    <<"eq24", <<4>>>>,
-    <<"eq24", <<5>>>>
+    <<"pend_last", <<3, 0, 3>>>>,
+    <<"pend_last", <<3, 1, 3>>>>,
+    <<"pend_last", <<0, 1, 0, 2, 0, 2>>>>,
+    <<"pend_last", <<0, 1, 0, 2, 0, 3>>>>,
+    <<"pend_last", <<0, 1, 0, 3, 0, 2>>>>,
+    <<"pend_last", <<0, 1, 0, 3, 0, 3>>>>
 >>
 
 (* Second bytes b for which some 2-byte payload (a, b) shows any of the     *)
